@@ -77,6 +77,17 @@ theorem authorizeResponse_frame (cfg : Cfg) (w : World) (t : Nat) (r : AuthResp)
     | split
     | simp only)
 
+/-- the authorization request touches the client-state and nonce stores only -/
+theorem authorizeRequest_frame (cfg : Cfg) (w : World) (t : Nat) (r : AuthReq) :
+    (authorizeRequest cfg w t r).1.tokens = w.tokens ∧ (authorizeRequest cfg w t r).1.nextTok = w.nextTok ∧
+    (authorizeRequest cfg w t r).1.s2sNonces = w.s2sNonces ∧ (authorizeRequest cfg w t r).1.codes = w.codes ∧
+    (authorizeRequest cfg w t r).1.nextCode = w.nextCode := by
+  unfold authorizeRequest
+  repeat' (first
+    | exact ⟨rfl, rfl, rfl, rfl, rfl⟩
+    | split
+    | simp only)
+
 /-- a token is issued by operation `op` at time `t` in world `w` under the name `name` with record `rec` -/
 def Issued (cfg : Cfg) (sha : String → String) (w : World) (t : Nat) (op : Op) (name : String) (rec : TokenRec) : Prop :=
   ∃ resp, (step cfg sha w t op).2 = .token (.ok resp) ∧ resp.token = name ∧ name = tokName w.nextTok ∧
@@ -107,6 +118,7 @@ theorem step_tokens (cfg : Cfg) (sha : String → String) (hchk : cfg.emptyVpChe
       exact ⟨_, resp, by simp [step, hr], heff.token, rfl, by simpa [step] using hrec, by simpa [step] using heff.next, rfl, rfl⟩
     · left; simp only [step]; exact hfr
   | seed state nonce session => left; exact ⟨rfl, rfl⟩
+  | authreq r => left; simp only [step]; exact ⟨(authorizeRequest_frame cfg w t r).1, (authorizeRequest_frame cfg w t r).2.1⟩
 /-! ### histories -/
 
 theorem after_cons (cfg : Cfg) (sha : String → String) (t : Nat) (op : Op) (rest : List (Nat × Op)) (w : World) :
@@ -258,6 +270,7 @@ theorem step_live (cfg : Cfg) (sha : String → String) (httl : cfg.nonceTtl ≠
   | auth r => simp only [step]; rw [(authorizeResponse_frame cfg w t r).2.2]; exact h
   | code r => simp only [step]; rw [issueCode_nonces]; exact h
   | seed state nonce session => exact h
+  | authreq r => simp only [step]; rw [(authorizeRequest_frame cfg w t r).2.2.1]; exact h
 
 theorem after_live (cfg : Cfg) (sha : String → String) (httl : cfg.nonceTtl ≠ 0) (n : String) (b : Nat) :
     ∀ (hist : List (Nat × Op)) (w : World), (∀ x ∈ hist, b ≤ x.1 + cfg.nonceTtl) → Live w.s2sNonces n b →
@@ -361,6 +374,10 @@ theorem step_codeGone (cfg : Cfg) (sha : String → String) (w : World) (t : Nat
     obtain ⟨h1, h2⟩ := issueCode_codes cfg sha w t r c hf
     exact ⟨h1, n, hn, by rw [h2]; exact hlt⟩
   | seed state nonce session => exact ⟨hf, n, hn, hlt⟩
+  | authreq r =>
+    simp only [step]
+    have hfr := authorizeRequest_frame cfg w t r
+    exact ⟨by rw [hfr.2.2.2.1]; exact hf, n, hn, by rw [hfr.2.2.2.2]; exact hlt⟩
 
 theorem after_codeGone (cfg : Cfg) (sha : String → String) (c : String) :
     ∀ (hist : List (Nat × Op)) (w : World), CodeGone w c → CodeGone (after cfg sha hist w) c := by
